@@ -12,6 +12,7 @@ from typing import Any, Dict, FrozenSet, List, Optional, Set, Tuple
 from ..automaton import admitted_kinds, build
 from ..interp import Event, Path
 from ..loader import AnalysisError, Program
+from ..partial import draw_nonempty
 from ..model import Model
 from ..report import Run
 from ..values import (ELL, Const, DictV, ExcV, ListV, PropsV, SchemaV, Spread, StrV, Sym, Term, TupleV, V, is_ell, kind_is)
@@ -187,6 +188,32 @@ def mentions(v: Any, key: str) -> bool:
     return False
 
 
+def _emptiness_only(fact_key: str, prop_key: str) -> bool:
+    """A guard on whether a sized prop is empty (`not alphabet`, `len(alphabet) == 0`) says nothing about its content:
+    it does not count as the generator consulting that constraint."""
+    k = fact_key.replace(" ", "")
+    pk = prop_key
+    return k in (pk, f"eq(len({pk}),0)", f"eq(0,len({pk}))", f"lt(0,len({pk}))", f"gt(len({pk}),0)", f"ne(len({pk}),0)",
+                 f"eq({pk},'')", f"eq('',{pk})")
+
+
+def only_empty_conforms(p: Path, rv: Any) -> bool:
+    """ax6: under an empty declared alphabet the only string that can conform is '' (and the schema is unsatisfiable
+    if a length or substring constraint excludes it).  A path taken because the alphabet is empty and returning ''
+    therefore owes nothing to the length / substring props."""
+    if not (isinstance(rv, Const) and rv.value == ""):
+        return False
+    for fk, t, b in p.facts:
+        if fk == "props.alphabet" and b is False:
+            return True
+        if isinstance(t, Term) and t.op == "eq" and b and {a.key() for a in t.args if isinstance(a, V)} in (
+                {"len(props.alphabet)", "0"}, {"props.alphabet", "''"}):
+            return True
+        if isinstance(t, Term) and t.op in ("lt", "gt") and not b and "len(props.alphabet)" in fk and "0" in {a.key() for a in t.args if isinstance(a, V)}:
+            return True        # not (0 < len(alphabet))
+    return False
+
+
 def check(run: Run, prog: Program, model: Model, tier: str) -> None:
     run.explanation = (
         "Generator.visit_* is evaluated abstractly (with Random's methods inlined down to the random.* calls) under "
@@ -218,6 +245,7 @@ def check(run: Run, prog: Program, model: Model, tier: str) -> None:
         return checked_props[k]
 
     mirror: Dict[str, Tuple[str, str, List[str], List[str]]] = {}
+    choice_seen: Dict[str, Tuple[str, str, str]] = {}
     draw_seen: Dict[str, Tuple[str, str, str, str]] = {}
     order = {"HOLDS": 0, "UNDECIDED": 1, "VIOLATED": 2}
 
@@ -259,6 +287,9 @@ def check(run: Run, prog: Program, model: Model, tier: str) -> None:
                     if rv.key() == "props.value":
                         consulted += 1      # fully fixed payload
                         continue
+                    if only_empty_conforms(p, rv):
+                        consulted += 1      # empty alphabet: '' is the only candidate (ax6)
+                        continue
                     if prop in LEN_OK and "elements" in cfg.setprops and isinstance(vals.get("elements"), ListV) \
                             and isinstance(rv, ListV) and rv.concrete() \
                             and len(rv.items) == sum(1 for x in vals["elements"].items if not is_ell(x)):
@@ -269,7 +300,7 @@ def check(run: Run, prog: Program, model: Model, tier: str) -> None:
                             continue
                         ignored.append(f"exactly the concrete members ({why})")
                         continue
-                    dep = mentions(rv, key) or any(key in k for k, _, _ in p.facts)
+                    dep = mentions(rv, key) or any(key in k and not _emptiness_only(k, key) for k, _, _ in p.facts)
                     if not dep and prop in vals:
                         # container payload given as tokens: its members must appear in the result
                         toks = [x.key() for x in getattr(vals[prop], "items", []) if isinstance(x, V) and not is_ell(x)]
@@ -301,6 +332,20 @@ def check(run: Run, prog: Program, model: Model, tier: str) -> None:
                             continue        # draws of the regex generator are judged by C09
                         lo, hi = e.data["operands"][0], e.data["operands"][1]
                         _judge_draw(prog, hook, label, e, lo, hi, p.facts[:e.nfacts], record_draw)
+                    if e.kind == "partial" and e.data.get("op") == "random.choice" and e.data.get("operands"):
+                        if any("_regex_generator" in q for q in e.stack):
+                            continue        # C09.DRAW-NONEMPTY
+                        seq = e.data["operands"][0]
+                        ne = draw_nonempty(seq, p, e)
+                        fn_ = (e.stack[-1] if e.stack else "").rsplit(".", 1)[-1]
+                        c_ = f"Generator.{hook}: {fn_}({seq.key()[:40] if not isinstance(seq, Const) else 'constant'})"
+                        if ne is True:
+                            choice_seen.setdefault(c_, ("HOLDS", f.loc, ""))
+                        elif isinstance(seq, Sym) and seq.origin and seq.origin[0] == "prop" and seq.origin[1] in ("types",):
+                            choice_seen.setdefault(c_, ("HOLDS", f.loc, "declaration takes at least one alternative"))
+                        else:
+                            choice_seen[c_] = ("VIOLATED", f.loc, f"under {label} the sequence {seq.key()[:50]} may be empty when a member is drawn "
+                                               "from it: random.choice raises IndexError")
                 rz = [e2 for e2 in p.events if e2.kind == "raise"]
                 if p.outcome == "raise" and rz and any("_regex_generator" in q for q in rz[-1].stack):
                     continue        # the regex generator's loud refusal of unsupported constructs (C09)
@@ -424,6 +469,13 @@ def check(run: Run, prog: Program, model: Model, tier: str) -> None:
             run.violated("DRAW-ORDER", construct, site, detail, witness)
         else:
             run.undecided("DRAW-ORDER", construct, site, detail)
+    for construct, (status, site, detail) in sorted(choice_seen.items()):
+        if status == "HOLDS":
+            run.holds("DRAW-NONEMPTY", construct, site, detail or "the sequence drawn from is non-empty on every path", nontrivial=True)
+        else:
+            run.violated("DRAW-NONEMPTY", construct, site, detail,
+                         witness="fake(schema.str.alphabet('')) raises IndexError although '' conforms")
+    run.floor("DRAW-NONEMPTY", 3)
     run.floor("MIRROR", 15)
     run.floor("DRAW-ORDER", 8)
     run.floor("KIND-AGREE", 20)
@@ -580,6 +632,9 @@ def _len_account(run: Run, prog: Program, model: Model, tier: str) -> None:
         for p in paths:
             if p.outcome != "return" or p.value is None:
                 continue
+            if only_empty_conforms(p, p.value):
+                ok += 1
+                continue
             l = symlen(p.value)
             if l is None:
                 probs.append(f"length of {p.value.key()[:60]} cannot be accounted for")
@@ -689,6 +744,8 @@ def _round_dir(run: Run, prog: Program, model: Model) -> None:
 G = "d42/generation/_generator.py"
 R = "d42/generation/_random.py"
 MUTANTS = [
+    {"name": "empty-alphabet guard removed (fix f2ca6f4 reverted)", "rule": "DRAW-NONEMPTY",
+     "edits": [(G, "        if len(alphabet) == 0:\n            # nothing can be drawn from an empty alphabet: only the empty string conforms\n            return \"\"\n", "")]},
     {"name": "float bounds may be ints and a degenerate range returns the bound itself (seeded C01-I)", "rule": "KIND-AGREE",
      "edits": [("d42/declaration/types/_float_schema.py", "    def min(self, /, value: float) -> \"FloatSchema\":\n        if not isinstance(value, float):", "    def min(self, /, value: float) -> \"FloatSchema\":\n        if not isinstance(value, (int, float)):"),
                (R, "        if precision is Nil:\n            return random.uniform(start, end)\n", "        if start == end:\n            return start\n\n        if precision is Nil:\n            return random.uniform(start, end)\n")]},
